@@ -819,7 +819,7 @@ def c02_compare(case, kinds, req, m_req, d, table, stats, report, viol):
         stats["requeries"] += 1
         rq, rd, rtable = run_query(case["doc"], ptxt, "req")
         got = None if rq.get("err") else [addr_only(x) for x in rq["res"]]
-        last_is_anchor = bool(ptxt) and "[&" in ptxt.rsplit(".", 1)[-1] and ptxt.endswith("]")
+        last_is_anchor = bool(isegs) and isegs[-1][0] == "ANCHOR"
         if last_is_anchor and got is not None and a in got:
             continue
         if got != [a]:
